@@ -34,7 +34,7 @@ pub struct Cfg {
     pub rng_seed: u64,
 }
 
-fn n_addr() -> SocketAddr {
+pub fn n_addr() -> SocketAddr {
     "10.0.0.11:6881".parse().unwrap()
 }
 fn n_id() -> [u8; 20] {
@@ -91,7 +91,8 @@ pub fn build(cfg: &Cfg) -> (Scenario, Vec<Box<dyn Peer>>) {
     for i in 0..crowd {
         contacts.push(crowd_addr(i));
     }
-    sc.nodes.push(NodeSpec { addr: n_addr(), id: Some(InfoHash::from(n_id())), read_only: true, announce_port: None, contacts, routers: vec![], start_ms: 0 });
+    let serving = cfg.contacts.iter().any(|c| c.leaf);
+    sc.nodes.push(NodeSpec { addr: n_addr(), id: Some(InfoHash::from(n_id())), read_only: !serving, announce_port: None, contacts, routers: vec![], start_ms: 0 });
     for (i, c) in cfg.contacts.iter().enumerate() {
         if c.leaf {
             // makes the leaf age at a different time than everybody else
@@ -284,7 +285,11 @@ pub fn configs(tier: Tier, seed: u64) -> Vec<Cfg> {
     for well_connected in [false, true] {
         for n in [1usize, 2] {
             let mut contacts: Vec<Contact> = (0..n).map(|_| Contact { leaf: false, silent_at: None, hearsay: false }).collect();
-            contacts.push(Contact { leaf: true, silent_at: None, hearsay: false });
+            // known by hearsay only: the periodic re-bootstrap never pings it as a starting node
+            contacts.push(Contact { leaf: true, silent_at: None, hearsay: true });
+            let mut c2 = contacts.clone();
+            c2.last_mut().unwrap().hearsay = false;
+            out.push(Cfg { contacts: c2, well_connected, search_every_ms: None, forget_after_ms: 0, minutes, latency: 20, per_contact_latency: vec![], rng_seed: seed });
             out.push(Cfg { contacts, well_connected, search_every_ms: None, forget_after_ms: 0, minutes, latency: 20, per_contact_latency: vec![], rng_seed: seed });
         }
     }
